@@ -467,12 +467,11 @@ def c11(cfg, events, case=None):
     return None
 
 
-def c12(cfg, events):
+def c12(cfg, events, case=None):
     if not cfg.serial:
         return None
     bw = max(cfg.n.bit_length(), 0)
     nbytes = (1 + bw + 7) // 8
-    last = {}
     for e in events:
         if e.kind != "api":
             continue
@@ -482,7 +481,39 @@ def c12(cfg, events):
             exp = bits.to_bytes(nbytes, "little").hex()
             if e.f["bytes"] != exp:
                 return "save() of a machine with active state %d wrote %s, the canonical encoding is %s" % (act, e.f["bytes"], exp)
-        last[e.inst] = e
+    if not case:
+        return None
+    # load(): the loader ends with the saver's activity, by exactly the lifecycle needed, consulting no guard
+    ops = case_ops(case)
+    act = {}
+    for (inst, op), evs in ops_of(events):
+        api = next((e for e in evs if e.kind == "api"), None)
+        if api is None or op < 0 or op >= len(ops):
+            continue
+        w = ops[op]
+        if w[0] == "load" and not any(e.kind == "rejected" for e in evs):
+            src = int(w[2])
+            before, saver = act.get(inst), act.get(src)
+            if before is not None and saver is not None:
+                after = int(api.f["act"])
+                if after != saver:
+                    return "op%d load(): the saver (instance %d) has activity %d, the loader had %d and ends with %d" % (op, src, saver, before, after)
+                g = next((e for e in evs if e.kind == "cb" and e.method in GUARDS), None)
+                if g is not None:
+                    return "op%d load(): a guard was consulted: %s" % (op, g.raw)
+                if cfg.all_defined(LIFE):
+                    if before != 255 and saver != 255:
+                        exp = [("reenter", before)] if saver == before else [("exit", before), ("enter", saver)]
+                    elif before != 255:
+                        exp = [("exit", before)]
+                    elif saver != 255:
+                        exp = [("enter", saver)]
+                    else:
+                        exp = []
+                    life = life_of(evs)
+                    if life != exp:
+                        return "op%d load(): loader in %d, saver in %d: expected lifecycle %s, observed %s" % (op, before, saver, exp, life)
+        act[inst] = int(api.f["act"])
     return None
 
 
@@ -1291,7 +1322,7 @@ def metamorphic(prop, case, impl_lines, rerun):
 
 ORACLES = {"C01": c01, "C02": c02, "C03": c02, "C04": c04, "C05": c05, "C06": c06, "C11": c11, "C12": c12,
            "C14": c14, "C15": c15, "C07": c07, "C08": c08, "C09": c09, "C10": c10, "C16": c16, "C17": c17}
-NEEDS_CASE = ("C02", "C03", "C06", "C07", "C08", "C09", "C10", "C11", "C14", "C15", "C16", "C17")
+NEEDS_CASE = ("C02", "C03", "C06", "C07", "C08", "C09", "C10", "C11", "C12", "C14", "C15", "C16", "C17")
 
 
 def run(prop, case, impl_lines, rerun=None):
@@ -1306,7 +1337,7 @@ def run(prop, case, impl_lines, rerun=None):
             cfg_line = case[1]
         cfg, evs = Cfg(cfg_line), parse(impl_lines)
         if prop in NEEDS_CASE:
-            if case is None and prop not in ("C02", "C03", "C06", "C11", "C14", "C15"):
+            if case is None and prop not in ("C02", "C03", "C06", "C11", "C12", "C14", "C15"):
                 return None
             v = f(cfg, evs, case)
             return v or metamorphic(prop, case, impl_lines, rerun)
